@@ -308,6 +308,16 @@ def run(chk, tier):
         for v in sub.violations:
             chk.fail("R-FAIL-IS-FAILURE", v["rule"] + ":" + v["instance"], v["message"], v["loc"], v["detail"])
         chk.count("R-FAIL-IS-FAILURE", sum(r["ok"] for r in sub.rules.values()), ["%s:imported" % flavour])
+    # a failed (re)allocation in crypt_ra / crypt_gensalt_ra must leave the caller's (*data, *size) pair and the heap as they
+    # were, otherwise the next call on the same objects does not behave normally: C14's path rules, imported
+    from . import c14
+    sub = Check("C15", tier)
+    sub.known = {}
+    c14.run(sub, tier)
+    chk.rule("R-RA-FAILURE", "crypt_ra / crypt_gensalt_ra leave the caller's block, its recorded size and the heap consistent on every failing path (imported from C14)")
+    for v in sub.violations:
+        chk.fail("R-RA-FAILURE", v["instance"], v["message"], v["loc"], v["detail"])
+    chk.count("R-RA-FAILURE", sum(r["ok"] for r in sub.rules.values()), ["crypt_ra"])
     chk.assumptions += ["libc reports allocator failure through the documented failure value and sets errno",
                         "both outcomes of every allocator call are additionally explored by the XAI crypt scenarios (C04) when claimed",
                         "pairs of faults add nothing statically: a second fault is another already-explored edge"]
